@@ -2,7 +2,8 @@
 
 
 class Bin:
-    def __init__(self, name, sources, defs=None, needs_pbt=True, cxxflags=(), ldflags=(), ldflags_pre=(), includes=(), lazy=False):
+    def __init__(self, name, sources, defs=None, needs_pbt=True, cxxflags=(), ldflags=(), ldflags_pre=(), includes=(), lazy=False, fuzz=False):
+        self.fuzz = fuzz          # libFuzzer target: built with clang++ -fsanitize=fuzzer,address,undefined, run with -runs/-seed
         self.name = name
         self.sources = list(sources)
         self.defs = dict(defs or {})
@@ -442,3 +443,27 @@ for _p, _f in _QUICK_FACTOR.items():
         _pr, _ca, _sz = _j.quick
         if _pr > 0:
             _j.quick = (_pr, _ca * _f, _sz)
+
+
+# ---- libFuzzer targets (coverage-guided, structure-aware decode in model/bytes.hpp, same oracles as the rapidcheck binaries) -------------
+def fuzz_bin(kind, dim, tsmp=0):
+    if kind == "tree":
+        return Bin("fz_tree_d%d" % dim, ["props/t_single.cpp"], {"DIM": dim, "NX": 1, "FUZZ_TARGET": None}, needs_pbt=False, fuzz=True)
+    if kind == "tsm":
+        return Bin("fz_tsm_d%d" % dim, ["props/t_tsm.cpp"], {"DIM": dim, "NX": 1, "RT": 0, "FUZZ_TARGET": None}, needs_pbt=False, fuzz=True)
+    return Bin("fz_per_d%d%s" % (dim, "_tsm" if tsmp else ""), ["props/t_periodic.cpp"], {"DIM": dim, "NX": 0, "RT": 0, "TSMP": tsmp, "FUZZ_TARGET": None}, needs_pbt=False, fuzz=True)
+
+
+def fuzz_job(name, b, quick_runs, thorough_runs, qprocs=4, thorough_only=False):
+    # for fuzz jobs: cases = -runs, size = -max_len
+    return Job(name, b, quick=(qprocs, quick_runs, 256), thorough=(16, thorough_runs, 256), thorough_only=thorough_only, timeout_quick=600, timeout_thorough=3000)
+
+
+PROPS["C01"].jobs += [fuzz_job("fuzz-tree-d3", fuzz_bin("tree", 3), 5000, 60000), fuzz_job("fuzz-tree-d2", fuzz_bin("tree", 2), 5000, 60000, thorough_only=True)]
+PROPS["C07"].jobs += [fuzz_job("fuzz-tree-d3", fuzz_bin("tree", 3), 5000, 60000, thorough_only=True)]
+PROPS["C06"].jobs += [fuzz_job("fuzz-tree-d2", fuzz_bin("tree", 2), 5000, 60000, thorough_only=True)]
+PROPS["C02"].jobs += [fuzz_job("fuzz-tree-d3", fuzz_bin("tree", 3), 5000, 60000, thorough_only=True)]
+PROPS["C09"].jobs += [fuzz_job("fuzz-tsm-d3", fuzz_bin("tsm", 3), 5000, 60000, thorough_only=True), fuzz_job("fuzz-tsm-d2", fuzz_bin("tsm", 2), 4000, 60000, qprocs=3)]
+PROPS["C10"].jobs += [fuzz_job("fuzz-per-d2", fuzz_bin("per", 2), 4000, 50000, qprocs=3), fuzz_job("fuzz-per-d3-tsm", fuzz_bin("per", 3, 1), 4000, 40000, thorough_only=True)]
+PROPS["C15"].jobs += [fuzz_job("fuzz-tree-d3", fuzz_bin("tree", 3), 4000, 60000, qprocs=3), fuzz_job("fuzz-tsm-d3", fuzz_bin("tsm", 3), 4000, 60000, thorough_only=True),
+                      fuzz_job("fuzz-per-d2", fuzz_bin("per", 2), 4000, 50000, thorough_only=True)]
